@@ -208,6 +208,32 @@ def elem_src(el, v):
     return str(v) if v >= 0 else '-' + str(-v)
 
 
+def elem_src_expr(el, v, idx):
+    """The same element value spelled as a constant expression the compiler has to fold (casts of bool / char
+    constants, arithmetic, unary operators): what reaches the data section must still be the value."""
+    if el == 'string':
+        return elem_src(el, v)
+    val = elem_val(el, v)
+    if el == 'bool':
+        opts = (['true', 'not false', '1 == 1', '1 is bool', "'a' is bool", '2 > 1'] if val else
+                ['false', 'not true', '1 == 2', '0 is bool', "'\\0' is bool", '1 > 2'])
+    elif el == 'byte':
+        b = val & 0xFF
+        opts = ["'\\x%02x'" % b, str(b), '(%d) is byte' % b, '(%d + 256) is byte' % b, '%d - 1' % (b + 1)]
+        if b in (0, 1):
+            opts.append('true is byte' if b else 'false is byte')
+    else:
+        lit_ = str(val) if val >= 0 else '-' + str(-val)
+        opts = [lit_, '(%s) + 1' % (str(val - 1) if val - 1 >= 0 else '-' + str(1 - val)) if val > 0 else '(%s) - 1' % (str(val + 1) if val + 1 >= 0 else '-' + str(-val - 1)),
+                '-(%s)' % (str(-val) if -val >= 0 else '-' + str(val)), '+(%s)' % lit_]
+        if val in (0, 1):
+            opts.append('true is int' if val else 'false is int')
+            opts.append('(true is byte) is int' if val else '(false is byte) is int')
+        if 0 <= val <= 255:
+            opts.append("'\\x%02x' is int" % val)
+    return opts[(idx * 7 + int(val) + len(opts)) % len(opts)]
+
+
 def elem_val(el, v):
     return v[0] if isinstance(v, tuple) else v
 
@@ -253,13 +279,18 @@ def pack(el, vals, ws):
     return None
 
 
-def check_arrays(stats, el, arrays, forms, ws):
-    """arrays: list of element lists; forms[i] in const_global|mut_global|const_local|mut_local|argument."""
+def check_arrays(stats, el, arrays, forms, ws, spell=0):
+    """arrays: list of element lists; forms[i] in const_global|mut_global|const_local|mut_local|argument.
+    spell=1: elements are written as constant expressions (elem_src_expr) instead of plain literals."""
     glob = ARR_HELPERS[el]
     body = ''
     names = []
     for i, (vals, form) in enumerate(zip(arrays, forms)):
-        lit_ = '[' + ', '.join(elem_src(el, v) for v in vals) + ']'
+        if spell:
+            stats.cls('arrays_spelled_as_constant_expressions')
+            lit_ = '[' + ', '.join(elem_src_expr(el, v, j + i) for j, v in enumerate(vals)) + ']'
+        else:
+            lit_ = '[' + ', '.join(elem_src(el, v) for v in vals) + ']'
         name = 'k%d' % i
         if not vals and form in ('argument',):
             form = 'const_local'
@@ -440,14 +471,16 @@ def run_shard(desc, seed, tier):
                     batch += [vals + [zero] * rnd.randint(1, 7), vals[:-1], list(vals)]
                     forms += [forms[-1], FORMS[rnd.randrange(5)], forms[-1]]
                 if len(batch) >= 12:
-                    m = check_arrays(stats, el, batch, forms, ws)
-                    if m:
-                        stats.violation({'kind': 'arrays', 'value': [el, [[x.hex() if isinstance(x, bytes) else x for x in a] for a in batch], forms, ws], 'message': m, 'signature': 'arrays:' + el})
+                    for spell in (0, 1):
+                        m = check_arrays(stats, el, batch, forms, ws, spell)
+                        if m:
+                            stats.violation({'kind': 'arrays', 'value': [el, [[x.hex() if isinstance(x, bytes) else x for x in a] for a in batch], forms, ws, spell], 'message': m, 'signature': 'arrays:%s:%d' % (el, spell)})
                     batch, forms = [], []
             if batch:
-                m = check_arrays(stats, el, batch, forms, ws)
-                if m:
-                    stats.violation({'kind': 'arrays', 'value': [el, [[x.hex() if isinstance(x, bytes) else x for x in a] for a in batch], forms, ws], 'message': m, 'signature': 'arrays:' + el})
+                for spell in (0, 1):
+                    m = check_arrays(stats, el, batch, forms, ws, spell)
+                    if m:
+                        stats.violation({'kind': 'arrays', 'value': [el, [[x.hex() if isinstance(x, bytes) else x for x in a] for a in batch], forms, ws, spell], 'message': m, 'signature': 'arrays:%s:%d' % (el, spell)})
         stats.sample({'kind': 'const arrays', 'el': el, 'lengths': '0..40', 'forms': FORMS})
     return stats
 
@@ -470,5 +503,5 @@ def replay(case):
             if el == 'string':
                 return bytes.fromhex(x)
             return tuple(x) if isinstance(x, list) else x
-        return check_arrays(st_, el, [[back(x) for x in a] for a in v[1]], v[2], v[3])
+        return check_arrays(st_, el, [[back(x) for x in a] for a in v[1]], v[2], v[3], v[4] if len(v) > 4 else 0)
     return 'unknown replay kind'
